@@ -25,8 +25,8 @@ CHECK_DEADLOCK FALSE
 PLANS = {
     "C06": dict(quick=[("SearchTrace", "sweep", ["-k", "80"], 12, 2600), ("SearchTrace", "ucigo", [], 4, 120)],
                 thorough=[("SearchTrace", "sweep", ["-k", "600"], 12, 30000), ("SearchTrace", "ucigo", [], 4, 1500)]),
-    "C07": dict(quick=[("SearchTrace", "pv", ["-depth", "6"], 12, 1500), ("SearchTrace", "sweep", ["-k", "40"], 4, 1500)],
-                thorough=[("SearchTrace", "pv", ["-depth", "8"], 12, 15000), ("SearchTrace", "sweep", ["-k", "200"], 4, 15000)]),
+    "C07": dict(quick=[("SearchTrace", "pv", ["-depth", "8"], 13, 1300), ("SearchTrace", "sweep", ["-k", "40"], 3, 1500)],
+                thorough=[("SearchTrace", "pv", ["-depth", "9"], 13, 14000), ("SearchTrace", "sweep", ["-k", "200"], 3, 15000)]),
     "C08": dict(quick=[("ReproTrace", "games", ["-plies", "20"], 12, 700), ("SearchTrace", "sweep", ["-k", "120"], 4, 2000)],
                 thorough=[("ReproTrace", "games", ["-plies", "60"], 12, 8000), ("SearchTrace", "sweep", ["-k", "1500"], 4, 25000)]),
 }
